@@ -722,6 +722,131 @@ def eval_population(ctx, group, cases_in, canary=False):
     return meta
 
 
+# ---- populations from a scripted graph stream (custom generation function) ---------------------
+def _n(name, *parents):
+    from golem.core.optimisers.graph import OptNode
+    return OptNode(content={'name': name}, nodes_from=list(parents))
+
+
+def _templates():
+    """small graph recipes -> list of nodes handed to OptGraph(...) (listing order matters only for
+    graph.nodes): single nodes, chains, forks with identical / different sinks (several sinks fed by
+    one parent), different multiplicities of one sink, diamonds, reversed listings, and
+    disconnected graphs (rejected by DEFAULT_DAG_RULES)"""
+    def chain(*names):
+        def mk():
+            node = None
+            for nm in names:
+                node = _n(nm, *([node] if node else []))
+            return [node]
+        return mk
+
+    def fork(parent, *sinks, rev=False):
+        def mk():
+            par = _n(parent)
+            out = [_n(nm, par) for nm in sinks]
+            return out[::-1] if rev else out
+        return mk
+
+    def diamond(top, l, r_, sink):
+        def mk():
+            t = _n(top)
+            return [_n(sink, _n(l, t), _n(r_, t))]
+        return mk
+
+    def two_level_fork():
+        par = _n('a')
+        mid = _n('b', par)
+        return [_n('c', mid), _n('c', mid), _n('c', par)]
+
+    def disconnected():
+        return [_n('a'), _n('b')]
+    return [chain('a'), chain('b'), chain('a', 'b'), chain('a', 'b'), chain('b', 'a'), chain('a', 'b', 'c'),
+            fork('a', 'b'), fork('a', 'b', 'b'), fork('a', 'b', 'b', 'b'), fork('a', 'b', 'c'),
+            fork('a', 'c', 'b'), fork('a', 'b', 'c', rev=True), fork('a', 'b', 'b', 'c'), fork('a', 'c', 'b', 'b', 'c'),
+            diamond('a', 'b', 'c', 'a'), diamond('a', 'c', 'b', 'a'), diamond('a', 'b', 'b', 'a'),
+            two_level_fork, disconnected]
+
+
+def observe_scripted(case):
+    from golem.core.optimisers.graph import OptGraph
+    ps, seed, length = case['pop_size'], case['seed'], case['length']
+    rr = pyrandom.Random(seed)
+    temps = _templates()
+    script = [rr.randrange(len(temps)) for _ in range(length)]
+    gp = GraphGenerationParams(rules_for_constraint=list(DEFAULT_DAG_RULES), available_node_types=TYPES)
+    generated = []
+    calls = [0]
+
+    def sinks_of(g):
+        return [to_tree_from(n) for n in g.root_nodes()]
+
+    def to_tree_from(n, depth=0):
+        assert depth < 32
+        return [TYPES.index(n.content['name']), [to_tree_from(q, depth + 1) for q in n.nodes_from]]
+
+    def generation_function():
+        g = OptGraph(temps[script[calls[0] % length]]())      # fresh objects, fresh uids every call
+        calls[0] += 1
+        generated.append([gp.verifier(g) is True, sinks_of(g)])
+        return g
+    gen = InitialPopulationGenerator(ps, gp, GraphRequirements()).with_custom_generation_function(generation_function)
+    pop = list(gen())
+    return {'generated': generated, 'result': [sinks_of(g) for g in pop],
+            'accepted': [gp.verifier(g) is True for g in pop],
+            'pairs': [bool(pop[i] == pop[j]) for i in range(len(pop)) for j in range(i + 1, len(pop))]}
+
+
+def c_forest(f):
+    return c_list([c_tree(t) for t in f], 'tree')
+
+
+def c_sobs(o):
+    return '(mkSObs %s %s %s %s)' % (
+        c_list(['(%s, %s)' % (c_bool(a), c_forest(f)) for a, f in o['generated']], 'sgraph'),
+        c_list([c_forest(f) for f in o['result']], 'forest'),
+        c_list([c_bool(b) for b in o['accepted']], 'bool'), c_list([c_bool(b) for b in o['pairs']], 'bool'))
+
+
+FN_S = 'fun c => match c with (ps, o) => [s_agree ps o; s_holds ps o] end'
+
+
+def eval_scripted(ctx, group, cases_in, canary=False):
+    cases, meta = [], []
+    for case in cases_in:
+        o = observe_scripted(case)
+        cases.append('(%s, %s)' % (c_nat(case['pop_size']), c_sobs(o)))
+        meta.append((case, o))
+    n_can = 0
+    if canary:
+        # hand-written: chain a->b and fork a->b, a->b' are == (same set of sink ids) yet both returned
+        chain, fork = [[1, [[0, []]]]], [[1, [[0, []]]], [1, [[0, []]]]]
+        o = {'generated': [[True, chain], [True, fork]], 'result': [chain, fork], 'accepted': [True, True],
+             'pairs': [True]}
+        cases.append('(%s, %s)' % (c_nat(2), c_sobs(o)))
+        n_can = 1
+        ctx.canaries += 1
+    res = ctx.coq_cases(group, REQ_F, FN_S, cases, 2, shard=40)
+    if n_can:
+        for ag, ho in res[-n_can:]:
+            if not ag and not ho:
+                ctx.canaries_caught += 1
+        res = res[:-n_can]
+    for (case, o), (ag, ho) in zip(meta, res):
+        c = dict(case, kind='scripted')
+        n = len(o['result'])
+        multi = sum(1 for f in o['result'] if len(f) > 1)
+        ctx.count(group, key=tuple(sorted(case.items())), nontrivial=n >= 2, pop_size=case['pop_size'], returned=n,
+                  multi_sink_members=min(multi, 4), generated=min(len(o['generated']), 1000) // 10 * 10,
+                  short=n < case['pop_size'])
+        if not ho:
+            ctx.violate(group, c, 'initial population from a custom generation function contains equal graphs, '
+                                  'unverified graphs or too many graphs')
+        if not ag:
+            ctx.disagree(group, c, 'model and InitialPopulationGenerator differ (scripted graph stream)')
+    return meta
+
+
 def pick_verifier(r, md, nt):
     k = r.choice(['VAll', 'VAll', 'VMinSize', 'VRootNot', 'VMinDepth'])
     if k == 'VMinSize':
@@ -776,6 +901,13 @@ def run_generators(ctx):
     cases.append({'md': 2, 'mn': 1, 'mx': 1, 'nt': 1, 'v': ['VNever'], 'seed': 7, 'pop_size': 2})
     meta = eval_population(ctx, 'initial-population', cases, canary=True)
     ctx.set_exhaustive('initial-population', False)
+    # custom generation function: a scripted stream of small graphs incl. pairs that are == without
+    # being the same object (fresh uids, other listing order, other multiplicity of identical sinks)
+    scripted = [{'pop_size': r.choice([1, 2, 3, 4, 5, 6, 8]), 'seed': r.randrange(10 ** 6), 'length': r.choice([4, 8, 16, 30])}
+                for _ in range(ctx.budget(120, 1500))]
+    scripted.append({'pop_size': 12, 'seed': 1, 'length': 30})       # more requested than distinct graphs exist
+    eval_scripted(ctx, 'population-scripted', scripted, canary=True)
+    ctx.set_exhaustive('population-scripted', False)
     for case, o in [m for m in meta if m[1]['result'] and len(m[1]['result']) >= 3][:1]:
         ctx.sample({'kind': 'population', 'case': case, 'generated': len(o['generated']),
                     'returned': o['result'][:3]})
@@ -817,6 +949,9 @@ def replay(ctx, payload):
     b = [(c['k'], c['calls']) for c in cases if c.get('kind') == 'builder']
     f = [strip(c) for c in cases if c.get('kind') == 'factory']
     p = [strip(c) for c in cases if c.get('kind') == 'population']
+    sc = [strip(c) for c in cases if c.get('kind') == 'scripted']
+    if sc:
+        eval_scripted(ctx, 'replay', sc)
     if b:
         eval_builder(ctx, 'replay', b)
     if f:
